@@ -55,7 +55,7 @@ RULE  = ("seeded experiments (1-3 environments x 1-2 learners x 1-2 evaluators, 
          "sequence and non-sequence cells) on a triple with at least one non-empty row")
 PLAN  = {"quick":    {"shards": 16, "cases": 1600,  "timeout": 600,  "budget_s": 90},
          "thorough": {"shards": 16, "cases": 24000, "timeout": 3000, "budget_s": 900}}
-REQUIRED = ["oracle.interactions.triples", "oracle.interactions.rows", "oracle.interactions.cells", "oracle.index-1..N",
+REQUIRED = ["oracle.identical.interrupted-plain", "oracle.identical.interrupted-gz", "oracle.interactions.triples", "oracle.interactions.rows", "oracle.interactions.cells", "oracle.index-1..N",
             "oracle.params.environments", "oracle.params.learners", "oracle.params.evaluators",
             "oracle.identical.plain-run", "oracle.identical.plain-from_file", "oracle.identical.gz-run", "oracle.identical.gz-from_file",
             "oracle.identical.restored-plain", "oracle.identical.restored-gz", "restored.stage1-left-work-pending",
@@ -423,9 +423,11 @@ class GenVal(_Comp):
         super().__init__(tag, spec["params"], spec["pstyle"])
         self.rows, self.style = spec["rows"], spec["style"]
         self.fail_pairs, self.fail_after = set(), 0
+        self.interrupt_pair = None
         self.yielded = []        # (env tag, lrn tag, number of rows handed over)
     def _gen(self, env, lrn):
         pair = f"{env.tag},{lrn.tag}"
+        if pair == self.interrupt_pair: raise KeyboardInterrupt()      # the user's Ctrl-C while this evaluation starts
         n = 0
         for items in self.rows[pair]:
             if pair in self.fail_pairs and n >= self.fail_after: raise StageFailure(f"evaluation {pair} fails in stage 1")
@@ -441,7 +443,7 @@ def make_function_evaluator(val):
     fn_evaluator._val = val
     return fn_evaluator
 
-def build_experiment(spec, stage1=False):
+def build_experiment(spec, stage1=False, interrupt=None):
     from coba.experiments import Experiment
     envs = [GenEnv(i, e["params"], e["style"]) for i, e in enumerate(spec["envs"])]
     lrns = [GenLrn(i, l["params"], l["style"]) for i, l in enumerate(spec["lrns"])]
@@ -452,6 +454,8 @@ def build_experiment(spec, stage1=False):
         for i in f["lrn"]: lrns[i].fail_params = True
         for e, l, v in f["triples"]:
             gvs[v].fail_pairs.add(f"{e},{l}"); gvs[v].fail_after = f["after"]
+    if interrupt is not None:
+        e, l, v = interrupt; gvs[v].interrupt_pair = f"{e},{l}"
     vals = [make_function_evaluator(g) if g.style == "function" else g for g in gvs]
     if spec["form"] == "product" and len(spec["triples"]) == len(envs) * len(lrns) * len(vals):
         exp = Experiment(envs, lrns, vals, description=spec["description"])
@@ -897,8 +901,8 @@ def check_case(spec, ctx=None):
         if ctx: ctx.count(n, k)
     tmp = tempfile.mkdtemp(prefix="vf-c07-")
     try:
-        def run(path, stage1=False):
-            exp = build_experiment(spec, stage1); exp._vf_seed = spec["seed"]
+        def run(path, stage1=False, interrupt=None):
+            exp = build_experiment(spec, stage1, interrupt); exp._vf_seed = spec["seed"]
             sink = _LogSink()
             return _run(exp, path, sink), sink
 
@@ -957,6 +961,28 @@ def check_case(spec, ctx=None):
                 d = results_identical(r, f)
                 note(f"oracle.identical.{label}-from_file" if restored else f"oracle.identical.{kind}-from_file")
                 if d: viol.append((f"identical/{sigl}-from_file-vs-run/{d[0]}/{d[1]}", f"Result.from_file({_show(subdir, fname)}) differs from the Result run returned: {d[2]}"))
+
+        # ---------------------------------------------------------------- (2b) ... and when the run is interrupted (Ctrl-C is caught by
+        # Experiment.run, which returns what was recorded so far): the same interruption point with no file / plain / gz
+        trip = [tuple(t) for t in spec["triples"]]
+        if len(trip) >= 3 and not viol:
+            at = trip[(2 * len(trip)) // 3]
+            try:
+                ri, _ = run(None, interrupt=at)
+                note("runs.interrupted")
+                for kind, fname in (("plain", "int.log"), ("gz", "int.log.gz")):
+                    folder = os.path.join(tmp, "interrupted"); os.makedirs(folder, exist_ok=True)
+                    path = os.path.join(folder, fname)
+                    r, _ = run(path, interrupt=at)
+                    f = Result.from_file(path)
+                    note(f"oracle.identical.interrupted-{kind}")
+                    d = results_identical(ri, r)
+                    if d: viol.append((f"identical/interrupted-{kind}-run-vs-no-file/{d[0]}/{d[1]}", f"a run interrupted by Ctrl-C at triple {at}: the Result returned with {fname} differs from the one without a file: {d[2]}"))
+                    d = results_identical(r, f)
+                    if d: viol.append((f"identical/interrupted-{kind}-from_file-vs-run/{d[0]}/{d[1]}", f"a run interrupted by Ctrl-C at triple {at}: Result.from_file({fname}) differs from the Result run returned: {d[2]}"))
+            except BaseException as e:
+                if isinstance(e, SystemExit): raise
+                viol.append((f"run/interrupted/raise:{type(e).__name__}", f"a run interrupted by Ctrl-C at triple {at} raised {type(e).__name__}: {e}"))
 
         # ---------------------------------------------------------------- (3) ... also when the file exists before the run
         for kind, siglabel, subdir, fname in files:
